@@ -115,6 +115,10 @@ func (h HttpSigTransport) Dereference(c context.Context, iri *url.URL) ([]byte, 
 		return nil, err
 	}
 	req = req.WithContext(c)
+	if req.URL.Path == "" {
+		// Sent as "/", so signed as "/".
+		req.URL.Path = "/"
+	}
 	req.Header.Add(acceptHeader, acceptHeaderValue)
 	req.Header.Add("Accept-Charset", "utf-8")
 	req.Header.Add("Date", h.clock.Now().UTC().Format("Mon, 02 Jan 2006 15:04:05")+" GMT")
@@ -145,6 +149,10 @@ func (h HttpSigTransport) Deliver(c context.Context, b []byte, to *url.URL) erro
 		return err
 	}
 	req = req.WithContext(c)
+	if req.URL.Path == "" {
+		// Sent as "/", so signed as "/".
+		req.URL.Path = "/"
+	}
 	req.Header.Add(contentTypeHeader, contentTypeHeaderValue)
 	req.Header.Add("Accept-Charset", "utf-8")
 	req.Header.Add("Date", h.clock.Now().UTC().Format("Mon, 02 Jan 2006 15:04:05")+" GMT")
